@@ -2927,3 +2927,82 @@ func ruleDestinationWriteOnly(c *Check, p *Program, rule string) {
 		c.Fail(rule, "compressors#destination-loads", "", "the read-modify-write sites of the token byte are resolved", fmt.Sprintf("only %d loads from a destination buffer found in the two compressors", nRMW))
 	}
 }
+
+// ---------------------------------------------------------------------------
+// R02.20: nothing is appended to a slice of block bytes. FrameDataBlock.Data
+// may be a window of the caller's buffer (zero-copy path) or of a pooled block
+// buffer; append writes into the spare capacity behind it, i.e. into the
+// caller's next block or into bytes another part of the pipeline still owns.
+// The slices the library appends to are its own scratch buffers (Frame.buf,
+// the rolling dictionary, the overflow adapter).
+
+func ruleNoAppendOntoBlockBytes(c *Check, p *Program, rule string) {
+	borrowed := []string{"FrameDataBlock.Data", "FrameDataBlock.data", "FrameDataBlock.src", "Writer.data", "Reader.data", "CompressingReader.in"}
+	n := 0
+	for _, fn := range moduleFuncs(p, pkgRoot, pkgStream) {
+		for _, f := range withAnon(fn) {
+			allInstrs(f, func(in ssa.Instruction) {
+				cc, ok := isBuiltinCall(in, "append")
+				if !ok || len(cc.Args) < 1 {
+					return
+				}
+				n++
+				c.Sites++
+				base := cc.Args[0]
+				for _, fld := range borrowed {
+					if loadField(base) == fld || derivesFromField(base, fld) {
+						c.Fail(rule, shortFn(f)+"#append-onto:"+fld, p.InstrPos(in), "no append has a slice of block bytes as its base (the spare capacity behind a block belongs to the caller's buffer or to a pooled buffer in use)", "append writes behind "+fld+": on the zero-copy path that is the caller's next block, which is overwritten before it is compressed")
+						return
+					}
+				}
+			})
+		}
+	}
+	c.Cond(n >= 3, rule, "stream#append-sites", "", "the append sites of the frame layer are resolved (trailer buffer, rolling dictionary, overflow adapter)", fmt.Sprintf("%d append sites, none onto block bytes", n), fmt.Sprintf("only %d append sites found", n))
+}
+
+// ---------------------------------------------------------------------------
+// R14.16: the block pipeline of a frame is set up only once the descriptor's
+// block size is final. Blocks.initW fetches the sequential block buffer from
+// the pool selected by the descriptor's block-size code; a code written after
+// that call (the legacy branch sets the 8 MiB code) leaves a buffer of the
+// previous size in place, and whether a block fits - compressed or stored raw -
+// then depends on what the Writer did before.
+
+func ruleInitWAfterDescriptor(c *Check, p *Program, rule string) {
+	fn := findFn(c, p, rule, "internal/lz4stream", "Frame.InitW")
+	if fn == nil {
+		return
+	}
+	var init ssa.Instruction
+	for _, ci := range callsIn(fn) {
+		if calleeIs(ci, pkgStream, "Blocks.initW") {
+			init = ci
+		}
+	}
+	if init == nil {
+		c.Fail(rule, "Frame.InitW#pipeline-after-descriptor", p.Pos(fn.Pos()), "Frame.InitW sets up the block pipeline", "no call of Blocks.initW in Frame.InitW (anchor unresolved)")
+		return
+	}
+	c.Sites++
+	setsSize := func(in ssa.Instruction) bool {
+		ci, ok := in.(ssa.CallInstruction)
+		if !ok {
+			return false
+		}
+		isSet := func(x ssa.CallInstruction) bool {
+			return calleeIs(x, pkgStream, "DescriptorFlags.BlockSizeIndexSet")
+		}
+		if st, isSt := in.(*ssa.Store); isSt && lastField(st.Addr) == "FrameDescriptor.Flags" {
+			return true
+		}
+		return isSet(ci) || callReaches(ci, isSet)
+	}
+	late, _ := reachAvoid(fn, init, func(in ssa.Instruction) bool {
+		if st, isSt := in.(*ssa.Store); isSt && lastField(st.Addr) == "FrameDescriptor.Flags" {
+			return true
+		}
+		return setsSize(in)
+	}, nil)
+	c.Cond(!late, rule, "Frame.InitW#pipeline-after-descriptor", p.InstrPos(init), "Blocks.initW (which fetches the block buffer for the descriptor's block size) runs after every write of the block-size code in Frame.InitW", "no block-size write is reachable after the call", "the block-size code is written after Blocks.initW has fetched the block buffer: a fresh sequential legacy Writer compresses its 8 MiB blocks into a buffer of the previous size and stores them raw when they do not fit, a reused or concurrent one does not")
+}
